@@ -31,7 +31,7 @@ impl Suite for H3LeakSuite {
         "h3-log-canaries"
     }
     fn rule(&self) -> String {
-        "a quiche HTTP/3 client sends one request (CONNECT host:port, CONNECT _check, absolute-form GET, CONNECT _udp2, x-ping) to the real QUIC listener of Core::listen with unique canary strings in Proxy-Authorization (wrong pair, configured pair, other scheme, malformed, no scheme, lower-case scheme), Authorization, Cookie and optionally in the credentials label of the SNI, log level trace, records read back from the endpoint's own FileLogger; oracle: no record contains a canary verbatim, base64-encoded or base64-decoded; non-trivial = a request that is rejected or fails".into()
+        "a quiche HTTP/3 client sends one request (CONNECT host:port, CONNECT _check, absolute-form GET, CONNECT _udp2, x-ping) to the real QUIC listener of Core::listen with unique canary strings in Proxy-Authorization (wrong pair, configured pair, other scheme, malformed, no scheme, lower-case scheme), Authorization, Cookie (each also as a repeated field with a second secret) and optionally in the credentials label of the SNI, log level trace, records read back from the endpoint's own FileLogger; oracle: no record contains a canary verbatim, base64-encoded or base64-decoded; non-trivial = a request that is rejected or fails".into()
     }
     fn strategy(&self, _: Tier) -> BoxedStrategy<Case> {
         (0u8..5, 0u8..7, any::<bool>(), any::<bool>(), any::<bool>(), any::<u32>())
@@ -113,11 +113,22 @@ impl Suite for H3LeakSuite {
                 6 => headers.push((b"proxy-authorization".to_vec(), format!("basic {}", token).into_bytes())),
                 _ => {}
             }
+            // repeated fields: every value is a secret, not only the first of a name
+            let repeat = c.nonce % 2 == 0;
+            if repeat && c.auth != 0 {
+                headers.push((b"proxy-authorization".to_vec(), format!("Basic {}", if c.auth == 2 { &token } else { &good }).into_bytes()));
+            }
             if c.with_authorization {
                 headers.push((b"authorization".to_vec(), format!("Bearer {}", authz).into_bytes()));
+                if repeat {
+                    headers.push((b"authorization".to_vec(), format!("Basic {}", b64(&authz)).into_bytes()));
+                }
             }
             if c.with_cookie {
                 headers.push((b"cookie".to_vec(), format!("sid={}", cookie).into_bytes()));
+                if repeat {
+                    headers.push((b"cookie".to_vec(), format!("theme=dark; token={}", b64(&cookie)).into_bytes()));
+                }
             }
             let out = h3_request(net.addr, &sni, &[b"h3".to_vec()], &headers, Duration::from_millis(1500)).await;
             tokio::time::sleep(Duration::from_millis(20)).await;
